@@ -375,7 +375,7 @@ class AggGen(S.SummGen):
         for m in ms:
             rows_s = rows if r.random() < 0.8 else rows[r.randint(0, len(rows) - 1):]
             sf = fields if r.random() < 0.7 else r.sample(fields, r.randint(1, len(fields)))
-            flavour = r.choice(["ts", "dt"]) if (basis == "cum" and r.random() < 0.08) else "date"
+            flavour = r.choice(["ts", "dt"]) if r.random() < 0.08 else "date"
             # one slice, two spellings of its (equal) metadata, alternating cell by cell -- cumulative input only:
             # the incremental path goes through Model/Basis.v, which groups rows by the printed metadata
             spell = S.respell(m) if (basis == "cum" and r.random() < 0.2) else (m, m)
@@ -391,8 +391,7 @@ class AggGen(S.SummGen):
                         f0 = r.choice(rf)
                         vals[f0] = None if r.random() < 0.5 else vals[f0] * 0
                     if basis == "inc":
-                        cells.append(IncrementalCell(period_start=ps, period_end=pe, prev_evaluation_date=prev,
-                                                     evaluation_date=e, values=vals, metadata=m))
+                        cells.append(S.mk_cell(IncrementalCell, flavour, ps, pe, e, vals, m, prev=prev))
                         prev = e
                     else:
                         cells.append(S.mk_cell(CumulativeCell, flavour, ps, pe, e, vals, spell[n_in_slice % 2]))
@@ -612,6 +611,9 @@ def run(ctx):
             paths.append(p)
         ctx.log(f"correspondence: {sum(len(b) for b, _ in files)} cases in {len(paths)} files ...")
         out = ctx.coqc_many(paths, jobs=16, timeout=1500)
+        for pth in paths:                      # a transient failure (static tree rebuilt meanwhile, machine overloaded): once more
+            if out[pth][0] != 0:
+                out[pth] = ctx.coqc(pth, timeout=1500)
         ncase = 0
         for p, (body, recs) in zip(paths, files):
             rc, o = out[p]
